@@ -302,9 +302,13 @@ def build_all(verbose=False, force=False):
 TIMEOUTS = []     # (executable, first case without a result, seconds) for every run of this check that had to be stopped
 
 
-def run_lines(exe, lines, timeout=900, env=None):
+LINE_TIMEOUT = 900     # seconds one batch of cases may take (set per tier in run_check)
+
+
+def run_lines(exe, lines, timeout=None, env=None):
     """Feed case lines to an executable, return {id: result string}.  On a timeout (a case on which the program under test does
     not terminate) the results printed so far are kept and the note names the first case without a result."""
+    timeout = timeout or LINE_TIMEOUT
     if any(t[0] == os.path.basename(exe) == "spgdrive" for t in TIMEOUTS):
         return {}, "not run: the implementation already failed to terminate on an earlier case of this check"
     data = "\n".join(lines) + "\n"
@@ -356,7 +360,7 @@ def env_gates():
     return sorted(names)
 
 
-def run_impl(lines, timeout=900, extra_env=None):
+def run_impl(lines, timeout=None, extra_env=None):
     res, note = run_lines(os.path.join(BUILD, "spgdrive"), lines, timeout, env=dict(GOENV, **extra_env) if extra_env else GOENV)
     for k, v in list(res.items()):
         i = v.rfind(" pmsg=")
@@ -379,7 +383,7 @@ def model_env(extra=None):
     return env
 
 
-def run_model(lines, timeout=900):
+def run_model(lines, timeout=None):
     MODEL_LINES.extend(lines)
     return run_lines(os.path.join(BUILD, "modelrun"), lines, timeout, env=model_env())
 
@@ -713,6 +717,8 @@ def run_check(prop, mod, tier, seed):
     build = build_all()
     del MODEL_LINES[:]
     del TIMEOUTS[:]
+    global LINE_TIMEOUT
+    LINE_TIMEOUT = 300 if tier == "quick" else 1500
     scratch = tempfile.mkdtemp(prefix="verif-%s-" % prop)
     try:
         ctx = Ctx(prop, tier, seed, build, scratch)
